@@ -14,6 +14,14 @@ def pin(eng, s):
     return SymStr(eng, [z3.IntVal(ord(c)) for c in s])
 
 
+def force(v):
+    if isinstance(v, (list, tuple)):
+        for x in v:
+            force(x)
+    elif isinstance(v, SymStr):
+        v.chars
+
+
 def same(a, b):
     return a == b and type(a) in (type(b), str, int, bool, float, tuple, list) or a == b
 
@@ -47,6 +55,7 @@ def run(mod=None):
             if rexc != sexc:
                 failed.append((desc, 'exception', rexc, sexc))
             return
+        force(s)
         sv = concretize_value(s, m())
         rv = core.plain(r)
         if sv != rv:
